@@ -25,6 +25,29 @@ def is_norm_call(x):
 def run(ctx):
     absorption(ctx, "R1")
     fingerprint_over_normalize(ctx, "R2")
+    from .c02 import control_chars_language
+    ctx.rule("R3", "shared cleaning pattern deletes control characters only: a printable character that canonicalize_url unescapes (e.g. %E2%80%8B) must not be deleted by the next scheme's cleaning pass")
+    control_chars_language(ctx, "R3")
+    from .c04 import sort_key
+    n = NM.Norm(ctx)
+    sort_key(ctx, "R4", n)
+    U.rule_qsl(ctx, "R5")
+    default_protocol(ctx, "R6", n)
+
+
+def default_protocol(ctx, rule, n):
+    ctx.rule(rule, "canonicalize_url and normalize_url assume the same protocol for scheme-less input (else 'x.com:443' keeps or loses its port depending on which scheme ran first)")
+    from ..srcmodel import func_params
+    cm = ctx.repo.mod("canonicalize_url")
+    names, defaults = func_params(cm.func("canonicalize_url").node)
+    dflt = ctx.repo.ceval(cm, defaults["default_protocol"]) if "default_protocol" in defaults else None
+    # normalize_url's constant prefix: phi(not PROTOCOL_RE.match ? CONST + url : url)
+    consts = set()
+    for x in P.subterms(n.parse_arg):
+        if x[0] == "binop" and x[1] == "Add" and x[2][0] == "const" and isinstance(x[2][1], str) and x[2][1].endswith("://"):
+            consts.add(x[2][1][:-3])
+    ctx.ob(rule, "same-default-protocol", consts == {dflt}, "canonicalize_url assumes %r for a scheme-less url but normalize_url %s: normalize_url(canonicalize_url('x.com:443')) differs from normalize_url('x.com:443')" % (dflt, sorted(consts)),
+           n.site, witness="x.com:443", sample="canonicalize default %r, normalize prefix %s" % (dflt, sorted(consts)))
 
 
 def role_set(term, attr):
@@ -58,6 +81,11 @@ def absorption(ctx, rule):
         ctx.ob(rule, "absorb/%s/transformers" % sink, not missing,
                "canonicalize_url applies %s to the %s but normalize_url does not: the stronger scheme separates URLs the weaker one merges" % (", ".join(x.rpartition(".")[2] for x in missing), sink),
                site, sample="%s: canonical %s, normalize %s" % (sink, sorted(x.rpartition('.')[2] for x in cc & relevant), sorted(x.rpartition('.')[2] for x in nc & relevant)))
+    # string methods applied to the host by the weaker scheme must be applied by the stronger one too
+    cc, cm_ = U.data_calls(F.simplify(ch, assume_c))
+    nc, nm_ = U.data_calls(F.simplify(n.host, assume_n))
+    extra = sorted(m for m in cm_ if m not in nm_ and m not in n.netloc_methods and m not in ("lower",))
+    ctx.ob(rule, "absorb/host/string-methods", not extra, "canonicalize_url applies .%s() to the host but normalize_url does not: two hosts with one canonical form keep two normalized forms" % ", .".join(extra), site, witness="http://archive.example.net./a")
     # user/password: normalize drops them by default; with strip_authentication=False same table
     for sink, cterm, nterm in (("user", cu, n.user), ("password", cpw, n.password)):
         nc, _ = U.data_calls(F.simplify(nterm, dict(assume_n, strip_authentication=False)))
@@ -133,6 +161,13 @@ def fingerprint_over_normalize(ctx, rule):
         bad = F.unguarded_paths(term, leaf, NM.is_lower)
         ctx.ob(rule, "fingerprint_url/%s/lowercased-after-unescape" % sink, not bad,
                "fingerprint_url does not lower-case the %s after normalisation: %%C3%%89 is unescaped to 'É' while a raw 'É' was lower-cased to 'é'" % sink, site, witness="http://a.com/%C3%89")
+    # lower-casing can reorder the items: the query is sorted again above the lower()
+    lows = [x for x in P.subterms(query, data_only=True) if NM.is_lower(x)]
+    if lows:
+        def sorted_above(t):
+            return [x for x in P.subterms(t, data_only=True) if x[0] == "call" and x[1] == "builtins.sorted" and any(NM.is_lower(y) for y in P.subterms(x, data_only=True))]
+        ctx.ob(rule, "fingerprint_url/query/sorted-after-lowercasing", bool(sorted_above(query)),
+               "fingerprint_url lower-cases the query after normalize_url sorted it and does not sort again: '?%5A=1&b=2' (Z unescaped, then lowered) keeps another order than '?z=1&b=2'", site, witness="http://a.com/?%5A=1&b=2")
     # string form = urlunsplit of the same tuple, nothing more
     for r in rets:
         if r.kind != "return" or r.term == t:
